@@ -20,7 +20,8 @@ def plan(ctx):
                     valid = len(s) - r
                     exp = 1 if valid >= k else -1
                     mask = sum(1 << p for p in bpos)
-                    obs.append(l2_ob(be, k, m, hd, order, ln=unit + 1, force=1, ct=2, dmg=mask, uf=True, expect=exp, tag="dmg"))
+                    for pos in ((0,) if not thorough else (0, WB[be] - 1 if WB[be] > 1 else 0)):
+                        obs.append(l2_ob(be, k, m, hd, order, ln=unit + 1, force=1, ct=2, dmg=mask, dmgpos=pos, uf=True, expect=exp, tag="dmg"))
             # re-sealed header field edits on one fragment
             for field in (0, 1, 2):
                 valid = len(s) - 1
@@ -29,7 +30,7 @@ def plan(ctx):
                     exp = min(exp, 0) if exp == 1 else exp   # an out-of-range index may also be refused outright by the partitioning step
                 obs.append(l2_ob(be, k, m, hd, order, ln=unit + 1, force=1, ct=2, hdrdmg=(0, field), uf=True, expect=exp if field else (0 if valid >= k else -1), tag="hdr"))
     return {"obs": obs,
-            "assumptions": ["CRCs uninterpreted; a damaged payload's checksum is assumed to differ from the stored value under both CRC flavours (that detection is what C10 establishes); header edits are re-sealed",
+            "assumptions": ["payload damage: CRCs abstracted to distinct constants per (fragment, region) - the outcome depends only on which checksums are equal - with the damaged payload checksumming to a different constant under both flavours (that the real CRCs detect the damage is C10); header edits: CRCs uninterpreted and re-sealed",
                             "out-of-range index edits: an outright error is accepted as well as decoding from the remaining valid fragments",
-                            "damage = symbolic non-zero XOR of one symbolic payload byte per damaged fragment"],
+                            "damage = symbolic non-zero XOR of one payload byte (position enumerated) per damaged fragment"],
             "trusted": ENV_TRUST + UF_TRUST + GF_TRUST + ISAL_TRUST + ["model/ref_format.c"]}
